@@ -8,21 +8,21 @@ package gpbft
 //@ pred strong(part mathint, whole mathint) = 3*part >= 2*whole
 
 //@ func divCeil
-//@   property C08
+//@   property C08 C07
 //@   requires b > 0 && a >= 0
 //@   ensures result*b >= a && (result-1)*b < a
 //@   nooverflow
 //@   pure
 
 //@ func IsStrongQuorum
-//@   property C08 C01
+//@   property C08 C01 C03 C04 C05 C07 C19
 //@   requires 0 <= whole && whole <= 4611686018427387903
 //@   ensures result == strong(part, whole)
 //@   nooverflow
 //@   pure
 
 //@ func hasWeakQuorum
-//@   property C08 C01
+//@   property C08 C01 C07
 //@   requires 0 <= whole
 //@   ensures result ==> 3*part > whole
 //@   ensures 3*part > whole + 2 ==> result
@@ -36,7 +36,7 @@ package gpbft
 //@     && forall(ECChainKey(k), has(q.chainSupport, k) ==> 0 <= q.chainSupport[k].power && q.chainSupport[k].power <= q.sendersTotalPower)
 
 //@ func (*quorumState).CouldReachStrongQuorumFor
-//@   property C08 C01
+//@   property C08 C01 C07
 //@   requires tallyBounds(q)
 //@   ensures result == strong(supportOf(q, key) + (q.powerTable.ScaledTotal - q.sendersTotalPower)
 //@        + ite(withAdversary, q.powerTable.ScaledTotal / 3, 0), q.powerTable.ScaledTotal)
@@ -44,13 +44,13 @@ package gpbft
 //@   pure
 
 //@ func (*quorumState).ReceivedFromStrongQuorum
-//@   property C08 C01
+//@   property C08 C01 C07
 //@   requires tallyBounds(q)
 //@   ensures result == strong(q.sendersTotalPower, q.powerTable.ScaledTotal)
 //@   pure
 
 //@ func (*quorumState).ReceivedFromWeakQuorum
-//@   property C08 C01
+//@   property C08 C01 C07
 //@   requires tallyBounds(q)
 //@   ensures result ==> 3*q.sendersTotalPower > q.powerTable.ScaledTotal
 //@   pure
@@ -1066,3 +1066,28 @@ package gpbft
 //@     before[the_previous_instances_committee_is_kept] nextInstance > 0 && arg(1) == nextInstance - 1
 //@   at NotifyProgress 1
 //@     before[progress_restarts_at_the_next_instance] arg(1).Instant.ID == nextInstance && arg(1).Instant.Round == 0 && arg(1).Instant.Phase == INITIAL_PHASE
+
+// ---- well-formedness of values (C04, C05, C15, C18 all rely on Validate meaning this) ----
+// A valid tipset has a non-empty key of bounded length and a defined power-table CID of bounded length.
+//@ func (*TipSet).Validate
+//@   property C04 C05 C15 C18
+//@   modifies auto
+//@   maypanic
+//@   ensures[a_valid_tipset_has_a_bounded_non_empty_key] result == nil ==> ts != nil && len(ts.Key) > 0 && len(ts.Key) <= TipsetKeyMaxLen
+//@   ensures[a_valid_tipset_has_a_bounded_defined_power_table_cid] result == nil ==> res(Defined, 1) && argOf(Defined, 1, 0) == ts.PowerTable && res(ByteLen, 1) <= CidMaxLen && argOf(ByteLen, 1, 0) == ts.PowerTable
+
+// A valid chain is bottom, or has at most ChainMaxLen tipsets, each valid, with epochs that are non-negative and
+// strictly increasing.
+//@ func (*ECChain).Validate
+//@   property C04 C05 C15 C18
+//@   modifies auto
+//@   maypanic
+//@   ensures[a_valid_chain_is_bottom_or_short_with_valid_tipsets_and_increasing_epochs] result == nil && c != nil && len(c.TipSets) > 0 ==> len(c.TipSets) <= ChainMaxLen
+//@        && forall(j, 0, len(c.TipSets), c.TipSets[j] != nil && len(c.TipSets[j].Key) > 0 && len(c.TipSets[j].Key) <= TipsetKeyMaxLen && c.TipSets[j].Epoch >= 0, trigger(c.TipSets[j]))
+//@        && forall(j, 1, len(c.TipSets), c.TipSets[j-1].Epoch < c.TipSets[j].Epoch, trigger(c.TipSets[j]))
+//@   loop 1
+//@     invariant c.TipSets == old(c.TipSets) && (iter == 0 ==> lastEpoch == -1) && (iter > 0 ==> lastEpoch == c.TipSets[iter-1].Epoch)
+//@     invariant forall(j, 0, iter, c.TipSets[j] != nil && len(c.TipSets[j].Key) > 0 && len(c.TipSets[j].Key) <= TipsetKeyMaxLen && c.TipSets[j].Epoch >= 0, trigger(c.TipSets[j]))
+//@     invariant forall(j, 1, iter, c.TipSets[j-1].Epoch < c.TipSets[j].Epoch, trigger(c.TipSets[j]))
+//@   at Validate 1
+//@     before[every_tipset_is_validated] arg(0) == ts
